@@ -1558,6 +1558,7 @@ class Evaluator:
         for n in _target_names(st.target):
             self.env[n] = ("loopout", n, lid)
         self.loops[lid].body_env = body_env  # type: ignore[attr-defined]
+        self.loops[lid].pre_env = dict(pre_)  # type: ignore[attr-defined]
         if not st.orelse:
             # `v = d; for ...: if c: v = f(x); break` -- a variable that only changes on the way to the (single) `break` holds
             # that value if the loop was left by it, else what it held before the loop
@@ -1783,6 +1784,14 @@ class Evaluator:
             return None
         if any(x[0] in ("unbound", "unknown") for x in walk(v)):
             return None
+        if sub.lambdas:
+            # the value mentions functions written in the module-level expression (`extent = lambda b: (b[0], b[2])`): they travel with it
+            self._n += 1
+            tag_ = f"g{self._n}"
+            idmap_ = {lid_: tag_ + lid_ for lid_ in sub.lambdas}
+            v = _rename_ids(v, idmap_, tag_)
+            for lid_, ls_ in sub.lambdas.items():
+                self.lambdas.setdefault(idmap_[lid_], ls_)
         return v
 
     def e_Attribute(self, n, live):
@@ -3073,6 +3082,22 @@ class Evaluator:
         return new_args, sorted(bound.items(), key=lambda kv: kv[0])
 
     # ------------------------------------------------------------------ helper inlining
+    def _overridden_below(self, ci, meth) -> bool:
+        cache = self.index.__dict__.setdefault("_overrides", {})
+        key = (ci.qual, meth)
+        if key not in cache:
+            hit = False
+            for c in self.index.all_classes():
+                if c is not ci and meth in c.methods:
+                    try:
+                        if ci in c.mro()[1:]:
+                            hit = True
+                            break
+                    except Exception:  # noqa: BLE001
+                        continue
+            cache[key] = hit
+        return cache[key]
+
     def _inline_target(self, f):
         """(module, def node, qual, class, bound-self term) of a helper the call resolves to, else None.
 
@@ -3140,10 +3165,13 @@ class Evaluator:
             modname = module.name
             selfterm = f[1]
         elif f[0] == "attr" and f[1] in (("param", "self"), ("param", "cls")) and self.cls is not None:
-            found = self.cls.find_method(f[2])
+            rcls = getattr(self, "dyn_cls", None) or self.cls
+            found = rcls.find_method(f[2])
             if not found:
                 return None
             cls, node = found
+            if getattr(self, "dyn_cls", None) is None and self._overridden_below(self.cls, f[2]):
+                return None  # a subclass supplies its own version: which body runs depends on the receiver
             module = cls.module
             fname = f"{cls.name}.{f[2]}"
             modname = module.name
